@@ -591,6 +591,9 @@ func (it *Interp) equal(t types.Type, x, y Value) Value {
 		}
 		return it.equal(xi.t, xi.v, yi.v)
 	case *types.Struct:
+		if isReflectValueType(t) {
+			return it.reflValueEqual(x, y)
+		}
 		xa, ya := x.Ref.(*Agg), y.Ref.(*Agg)
 		res := Value{Bits: 1}
 		for i := 0; i < u.NumFields(); i++ {
